@@ -212,6 +212,18 @@ let handle (toks : String.t list) : String.t =
     (match run_type impl_table (nat_of_int 400) (coq_of_ocaml name) args trees.(Array.length trees - 1) with
      | Err e -> "err " ^ err_name e
      | Ok (v, s) -> Printf.sprintf "ok %s rest=%d/%d" (show_pv v) (List.length s.s_bits) (List.length s.s_refs))
+  | "msg_ser" :: info :: init :: body :: rest ->
+    let (ns, _) = parse_dag rest in
+    let trees = tree_of_dag ns in
+    (match ser_message (parse_info info) (parse_init trees init) trees.(int_of_string body) with
+     | Err e -> "err " ^ err_name e
+     | Ok c -> "ok " ^ cell_text c)
+  | "msg_dec" :: rest ->
+    let (ns, _) = parse_dag rest in
+    let trees = tree_of_dag ns in
+    (match s_dec_message trees.(Array.length trees - 1) with
+     | Err e -> "err " ^ err_name e
+     | Ok ((info, init), body) -> Printf.sprintf "ok %s %s %s" (show_info info) (show_init init) (cell_text body))
   | "senc" :: rest ->
     let (ns, ops) = parse_dag rest in
     let trees = tree_of_dag ns in
